@@ -79,6 +79,10 @@ CHECKS = {
          "Byte-equality monitor over recorded groups of executions of one resource set: V layout variants (shuffled documents, one file per document, nested directories, permuted rules/peers) x R repetitions in fresh analyzers x list txt/json/csv/md/dot x exposure off/on + diff txt/csv/md/dot, a slice through the binary (fresh process, fresh hash seed); the number of distinct internal iteration orders seen is measured from the returned []Peer order. Held on the K inputs / N outputs in the evidence.",
          "Only the map orders the runtime actually produced are observed; evidence states how many distinct orders were seen.",
          "runtime monitoring: determinism monitor over repeated executions under varied layouts and map orders", "DESIGN.md §5 C08"),
+ 'C09': ('exploration',
+         "Round-trip monitor: every result is rendered by the real formatters in all formats (list txt/json/csv/md/dot, diff txt/csv/md/dot) and parsed back by our own parsers; the parsed tuple sets must be equal across formats and equal to the tuples read from the API result (connections compared as parsed (protocol, port) sets, exposure peer names compared token-exactly with the API selectors, diff annotations incl. dot node colours). Held on the K results x formats in the evidence.",
+         "Our parsers and the dot id -> name mapping; an empty diff prints nothing in any format.",
+         "runtime monitoring: round-trip (parse-back) oracle over formatter outputs of observed results", "DESIGN.md §5 C09"),
 }
 
 NOT_YET = "check not built yet (construction in progress, see DESIGN.md section 9)"
